@@ -41,6 +41,9 @@ const c03Msg = "From: <a@example.org>\r\nSubject: verif\r\n\r\nbody line\r\n"
 
 var c03ManyReceived = strings.Repeat("Received: from x by y\r\n", 4) + c03Msg
 
+// c03JudgeASCII: additionally judge the ASCII clause of C16 on every reply (set by the C16 part)
+var c03JudgeASCII bool
+
 func c03Alphabet(lmtp bool) []string {
 	hello := "EHLO client.example"
 	if lmtp {
@@ -245,6 +248,7 @@ func c03Exec(c c03Case) (res c03Run) {
 	mailOpen := false
 	mailArg := "" // the accepted MAIL command (its spelling is part of the state: permits are keyed by it)
 	ended := false
+	utf8Txn := false // the MAIL command of the transaction in progress carried SMTPUTF8
 	cut := false // the client disconnected in the middle of the message data
 	var cutOpen map[string]bool
 	commitFault := strings.HasSuffix(c.World.Fault, ":commit") || strings.HasSuffix(c.World.Fault2, ":commit")
@@ -357,6 +361,21 @@ func c03Exec(c c03Case) (res c03Run) {
 			cl.waitClosed()
 			ended = true
 		}
+		if c03JudgeASCII {
+			// C16: replies to a client that did not negotiate SMTPUTF8 (for the transaction
+			// in progress) contain only ASCII
+			all := append([]ehReply{rep}, reps...)
+			thisUTF8 := utf8Txn || (strings.HasPrefix(cmd, "MAIL") && strings.HasSuffix(cmd, " SMTPUTF8"))
+			for _, rp := range all {
+				for _, ln := range rp.Lines {
+					for i := 0; i < len(ln); i++ {
+						if ln[i] >= 0x80 && !thisUTF8 {
+							return fail("non-ascii-reply-without-smtputf8", "reply %q to %q contains non-ASCII text although the transaction in progress did not use SMTPUTF8", rp.String(), cmd)
+						}
+					}
+				}
+			}
+		}
 		// protocol mirror
 		switch {
 		case strings.HasPrefix(cmd, "EHLO") || strings.HasPrefix(cmd, "LHLO"):
@@ -368,6 +387,7 @@ func c03Exec(c c03Case) (res c03Run) {
 			if rep.Class() == 2 {
 				mailOpen, txnRcpts = true, nil
 				mailArg = cmd
+				utf8Txn = strings.HasSuffix(cmd, " SMTPUTF8")
 			}
 		case strings.HasPrefix(cmd, "RCPT"):
 			if rep.Class() == 2 {
@@ -378,6 +398,7 @@ func c03Exec(c c03Case) (res c03Run) {
 		case cmd == "RSET":
 			if rep.Class() == 2 {
 				mailOpen, txnRcpts, libRcpts = false, nil, nil
+				utf8Txn = false
 			}
 		case cmd == "QUIT":
 			if rep.Code == 221 || rep.Code == 0 {
@@ -430,6 +451,7 @@ func c03Exec(c c03Case) (res c03Run) {
 				}
 				if len(reps) > 0 && reps[len(reps)-1].Code != 0 {
 					mailOpen, txnRcpts, libRcpts = false, nil, nil
+					utf8Txn = false
 				}
 			}
 		}
@@ -724,3 +746,85 @@ func TestVerifC03(t *testing.T) {
 	r.Count("traces_validated_against_impl", transitions)
 	r.MaxCount("max_depth", int64(deepest))
 }
+
+
+// TestVerifC16Sessions (C16, part "sessions"): the ASCII clause on whole sessions.
+// wrapErr is judged value by value in the endpoint part; here the replies of
+// complete command sequences are judged, where the SMTPUTF8 parameter changes
+// from one transaction of a session to the next.
+func TestVerifC16Sessions(t *testing.T) {
+	r := vx.Start("C16", "sessions")
+	defer r.Finish()
+	c03JudgeASCII = true
+	r.Rule("every command sequence of length <= 6 (no merging of states) over {EHLO, MAIL with / without SMTPUTF8, RCPT, RSET (thorough: DATA)} on the real SMTP endpoint in worlds {deferred, immediate sender reject} x {no fault, check reject at sender / recipient / body, target refusal at recipient / body}, scripted failures carrying non-ASCII text; oracle: every reply given while the transaction in progress did not use SMTPUTF8 is ASCII-only. Non-trivial: all transitions")
+	if rp := r.Replay(); rp != nil {
+		var c c03Case
+		if json.Unmarshal(rp, &c) != nil || len(c.Cmds) == 0 {
+			return
+		}
+		res := c03Exec(c)
+		r.Eval()
+		if strings.Contains(res.fp, "non-ascii-reply") {
+			r.Violation(strings.Replace(res.fp, "C03:", "C16:sessions:", 1), res.detail, c)
+		}
+		return
+	}
+	if r.Replaying() {
+		return
+	}
+	// every sequence is executed (no merging of states: the session keeps state that the
+	// replies do not show, e.g. a remembered refusal)
+	alpha := []string{"EHLO client.example", "MAIL FROM:<a@example.org>", "MAIL FROM:<a@example.org> SMTPUTF8", "RCPT TO:<r1@t1.example>", "RSET"}
+	if vx.Thorough() {
+		alpha = append(alpha, "DATA")
+	}
+	wi := 0
+	var transitions int64
+	for _, df := range []bool{true, false} {
+		for _, f := range []string{"", "check:sender", "check:rcpt", "check:body", "vt1:rcpt", "vt1:body"} {
+			wi++
+			if !r.Mine(wi) {
+				continue
+			}
+			w := c03World{Defer: df, Fault: f}
+			frontier := [][]string{{}}
+			for len(frontier) > 0 {
+				h := frontier[0]
+				frontier = frontier[1:]
+				if len(h) >= 6 {
+					continue
+				}
+				for _, cmd := range alpha {
+					if len(h) == 0 && !strings.HasPrefix(cmd, "EHLO") {
+						continue // every session starts with the greeting
+					}
+					hist := append(append([]string{}, h...), cmd)
+					c := c03Case{World: w, Cmds: hist}
+					res := c03Exec(c)
+					if res.deadline {
+						r.Cap("deadline: " + vx.JSON(c))
+						continue
+					}
+					r.Eval()
+					transitions++
+					r.Nontrivial(vx.JSON(c))
+					if strings.HasPrefix(res.fp, "HARNESS:") {
+						r.HarnessError(res.fp + ": " + res.detail)
+						return
+					}
+					if strings.Contains(res.fp, "non-ascii-reply") {
+						r.Violation(strings.Replace(res.fp, "C03:", "C16:sessions:", 1), res.detail+"\ncommands: "+strings.Join(hist, " / "), c)
+						continue
+					}
+					if res.fp != "" || res.ended {
+						continue // other properties' subjects are not judged here
+					}
+					frontier = append(frontier, hist)
+				}
+			}
+		}
+	}
+	r.Count("transitions", transitions)
+	r.Outcome("sessions explored")
+}
+
